@@ -982,3 +982,44 @@ Theorem profile_gzip_layer_was_unbounded_before_the_fix : forall limit, (0 <= li
   exists layers, (limit < snd (pprof_guard_orig 0 layers))%Z.
 Proof. exact pprof_guard_orig_unbounded. Qed.
 Print Assumptions profile_gzip_layer_was_unbounded_before_the_fix.
+
+(* ---- the lockstep verdict computed and justified inside Coq ---------------------------------------------------- *)
+
+(* For each of the five non-literal onEntries call sites the translator extracts the statement lists of the file that change the
+   length of a slice handed over (no verdict any more); every list is uniform -- no control flow inside, members only, every
+   member undergoes the same sequence of changes -- and the derived arguments are len(member) or the expression all members are
+   made with.  What that means: in every execution -- the lists run in any order, any number of times, with any control flow
+   between them (jx callbacks, loops, early returns) -- the slices have ONE length whenever a list has been left, hence at
+   every call of onEntries.  (Loki JSON and Datadog series rest on this; remote write and Loki protobuf also have the
+   interpreter theorems above.) *)
+Theorem non_literal_sites_are_uniform : forallb site_uniform gen_lockstep_blocks = true /\ List.length gen_lockstep_blocks = 5%nat.
+Proof. vm_compute. split; reflexivity. Qed.
+Print Assumptions non_literal_sites_are_uniform.
+
+Theorem uniform_sites_hand_over_slices_of_one_length : forall f fn members derived blocks,
+  In (f, fn, members, derived, blocks) gen_lockstep_blocks ->
+  forall tr, (forall blk ev, In (blk, ev) tr -> exists cf, In (blk, cf) blocks) ->
+  forall st, members_equal members st -> members_equal members (run_trace st tr).
+Proof.
+  intros f fn members derived blocks Hin. apply lockstep_keeps_members_equal.
+  pose proof (proj1 non_literal_sites_are_uniform) as H. rewrite forallb_forall in H. specialize (H _ Hin).
+  cbn in H. apply andb_true_iff in H as [H _]. apply andb_true_iff in H as [_ H]. exact H.
+Qed.
+Print Assumptions uniform_sites_hand_over_slices_of_one_length.
+
+Example uniform_sites_hypotheses_met :
+  exists f fn members derived blocks blk, In (f, fn, members, derived, blocks) gen_lockstep_blocks /\ In (blk, false) blocks /\
+    members = ["p.String"; "p.TsNs"; "p.Types"; "p.Value"]%string /\ List.length blk = 4%nat /\
+    members_equal members (run_trace (fun _ => 0%N) [(blk, fun _ => 0%N); (blk, fun _ => 0%N)]).
+Proof.
+  do 5 eexists. exists [("p.TsNs", ChAppend1); ("p.String", ChAppend1); ("p.Value", ChAppend1); ("p.Types", ChAppend1)]%string.
+  split; [do 4 right; left; reflexivity|]. split; [cbn; tauto|]. split; [reflexivity|]. split; [reflexivity|].
+  intros m m' Hm Hm'. cbn in Hm, Hm'. repeat (destruct Hm as [<-|Hm]; [repeat (destruct Hm' as [<-|Hm']; [reflexivity|]); contradiction|]). contradiction.
+Qed.
+
+(* counting kinds per list, the rule of the third session's Go-side analysis, would accept a list that tears the slices *)
+Theorem kind_counting_verdict_refuted : exists members blk,
+  block_uniform members (blk, false) = false /\
+  run_block (fun _ => 0%N) (fun _ => 0%N) blk "a" <> run_block (fun _ => 0%N) (fun _ => 0%N) blk "b".
+Proof. exists ["a"; "b"]%string. eexists. exact kind_counting_is_not_enough. Qed.
+Print Assumptions kind_counting_verdict_refuted.
